@@ -213,6 +213,12 @@ class _Num(Sym):
         if kb == 'bool':
             b, kb = as_int(o), 'int'
         if ka == 'int' and kb == 'int' and int_ok:
+            ta, tb = getattr(self, 'tag', None), getattr(o, 'tag', None)
+            ut = ta if ta in UNSIGNED else (tb if tb in UNSIGNED else None)
+            if ut is not None and (ta in (None, 'int', ut)) and (tb in (None, 'int', ut)):
+                # python ints are weak: an unsigned NumPy scalar op a python int (or its own type) stays
+                # unsigned and wraps around (NumPy warns and carries on)
+                return mk_int(fn(a, b) % (1 << UNSIGNED[ut]), ut)
             return mk_int(fn(a, b))
         if ka not in ('int', 'real') or kb not in ('int', 'real'):
             return NotImplemented
